@@ -8,6 +8,7 @@ import Rpki.Props.C15
 #print axioms Rpki.C15.json_text_tree_roundtrip
 #print axioms Rpki.C15.json_text_roundtrip
 #print axioms Rpki.C15.from_str_to_string
+#print axioms Rpki.C15.from_str_to_string_pretty
 #print axioms Rpki.C15.readers_agree_on_written_text
 #print axioms Rpki.C15.json_text_injective
 #print axioms Rpki.C15.assertions_payload
